@@ -12,6 +12,4 @@ GenInit == Init /\ h = <<>>
 GenNext == Next /\ h' = Append(h, Inp(out'))
 GenSpec == GenInit /\ [][GenNext]_gvars
 Emit == PrintT(<<"SCHED", ToJson([h |-> h'])>>)
-(* simulation: print every prefix; the driver keeps the maximal ones *)
-SimInv == PrintT(<<"SCHED", ToJson([h |-> h])>>)
 =============================================================================
